@@ -6,44 +6,23 @@ import Aiortc.Lemmas.SctpNoCrashQuiet
 `Props/C05Sctp.lean` proves crash-freedom of `.rx` from the invariant `Inv`, which excludes (a) channels created
 before they can get a stream id and (b) partially reliable traffic, and says nothing about the application inputs.
 Here the invariant `Inv2 U e` (`Aiortc.Sctp.V2.WF`, see `Lemmas/C05/V2Inv.lean` and `notes/C05c.md`) has neither
-restriction; it holds from `Ep.init` on (phase `Pre` before `start()`), is preserved by every input under the
-preconditions stated below, and makes every datagram harmless — under two CAPACITY hypotheses that are really needed:
+restriction; it holds from `Ep.init` on (phase `Pre` before `start()`), is preserved by EVERY input under the API
+preconditions stated below, and makes every datagram harmless (`rx_never_crashes2_proved`,
+`reachable_rx_never_crashes_proved`).  One capacity hypothesis is left, and it is really needed:
 
 * `U` : the set of stream ids that ever carry partially reliable user messages has at most 16381 elements
-  (a FORWARD-TSN chunk over more streams does not fit its 16-bit length: `Chunk.inRange`, `4 + 4·n + 4 < 65536`);
-* `Cap e k` : `12·(registered channels + channels waiting for an id) + 655360 + k ≤ advertised_rwnd`, where `k` is the
-  DATA payload of the datagram. It bounds the number of stream ids in use by `32768 − k/12` even after the peer has
-  registered as many channels as the bytes it delivers allow (a DATA_CHANNEL_OPEN has ≥ 12 bytes), so that
-  `_data_channel_flush` still finds an id `< 65536` of the local parity.
+  (a FORWARD-TSN chunk over more streams does not fit its 16-bit length: `Chunk.inRange`, `4 + 4·n + 4 < 65536`).
 
-The capacity clause is NOT preserved by `.rx` unconditionally, and cannot be: a peer that opens 32768 channels on
-stream ids of the LOCAL parity (nothing stops it) makes the next locally created channel get the id 65536 / 65537 and
-the DATA chunk of its DATA_CHANNEL_OPEN raise `struct.error` (genuine defect, reproduced on the real code, see notes).
-So `rx_never_crashes2` (the full statement) stays a `def`; `rx_never_crashes2_partial` is what holds.
+The stream id capacity hypothesis `Cap` of the first version is gone: since the fix "close a data channel that cannot
+get a stream id instead of using one beyond 65535" (modelled in `flushLoop`), a peer that occupies every stream id of
+the local parity can no longer make `_data_channel_flush` queue a DATA chunk with stream id 65536.
 -/
 namespace Aiortc.Props.C05Sctp2
 open Aiortc Aiortc.Gen Aiortc.Sctp Aiortc.Sctp.Wire
 set_option linter.unusedSimpArgs false
 
-/-- The invariant with `n` bytes of slack in the stream id capacity clause. -/
-def Inv2s (U : List Nat) (n : Nat) (e : Ep) : Prop := V2.WF U n e ∧ Acc 0 e.rwnd e.inStreams ∧ SidOk e.inStreams
-
 /-- The invariant. -/
-def Inv2 (U : List Nat) (e : Ep) : Prop := Inv2s U 0 e
-
-/-- Capacity: room for `k` more bytes of DATA payload (each 12 of which may register a channel). -/
-def Cap (e : Ep) (k : Nat) : Prop :=
-  12 * ((V2.pendingCh e.chans + e.dataChannels.length : Nat) : Int) + 655360 + (k : Int) ≤ e.rwnd
-
-instance (e : Ep) (k : Nat) : Decidable (Cap e k) := by unfold Cap; infer_instance
-
-theorem inv2s_iff (U : List Nat) (n : Nat) (e : Ep) : Inv2s U n e ↔ Inv2 U e ∧ Cap e n := by
-  constructor
-  · rintro ⟨hw, ha, hs⟩
-    exact ⟨⟨hw.mono (Nat.zero_le _), ha, hs⟩, hw.room.room⟩
-  · rintro ⟨⟨hw, ha, hs⟩, hc⟩
-    exact ⟨⟨hw.net, hw.ch, hw.tx, hw.rx, hw.rcReq, hw.rcResp, hw.sack, ⟨hw.room.cap, hc⟩, hw.ids, hw.cap, hw.tm1,
-      hw.tm2, hw.tasks, hw.rcr⟩, ha, hs⟩
+def Inv2 (U : List Nat) (e : Ep) : Prop := V2.WF U e ∧ Acc 0 e.rwnd e.inStreams ∧ SidOk e.inStreams
 
 /-- From a weakest-precondition fact about a handler to the outputs of `step`. -/
 theorem step_of_wp {e : Ep} {now : Int} {inp : Input} {A : String → Prop} {P : Ep → Prop}
@@ -80,66 +59,57 @@ theorem step_ok {e : Ep} {now : Int} {inp : Input} {P : Ep → Prop}
   have hno : ∀ k, Out.crash k ∉ (step e now inp).2 := fun k hk => h1 k hk
   exact ⟨hno, h2 hno⟩
 
-theorem wf_now {U n} {e : Ep} (h : V2.WF U n e) (now : Int) : V2.WF U n { e with now := now } :=
-  ⟨h.net, h.ch, h.tx, h.rx, h.rcReq, h.rcResp, h.sack, h.room, h.ids, h.cap, h.tm1, h.tm2, h.tasks, h.rcr⟩
+theorem wf_now {U} {e : Ep} (h : V2.WF U e) (now : Int) : V2.WF U { e with now := now } :=
+  ⟨h.net, h.ch, h.tx, h.rx, h.rcReq, h.rcResp, h.sack, h.ids, h.cap, h.tm1, h.tm2, h.tasks, h.rcr⟩
 
 /-! ## the receive path -/
 
-/-- The full statement wanted: `Inv2` alone makes every datagram harmless and is preserved.  FALSE in the model and in
-the real code (stream id exhaustion by the peer, see the module doc); kept as the statement of the goal. -/
+/-- The full statement: `Inv2` alone makes every datagram harmless, and is preserved. -/
 def rx_never_crashes2 : Prop :=
   ∀ (U : List Nat) (e : Ep) (d cookie : Bytes) (now : Int), Inv2 U e → IsBytes d → cookie.length ≤ 1000 →
     (∀ k, Out.crash k ∉ (step e now (.rx d cookie)).2) ∧ Inv2 U (step e now (.rx d cookie)).1
 
-/-- What holds: with capacity for the DATA payload of the datagram (`Inv2s U (n + payload) e`, i.e. `Inv2 U e` and
-`Cap e (n + payload)`), NO byte string makes the receive path raise or hang — in any association state, with channels
-still waiting for their stream id, with partially reliable messages queued, abandoned or in flight — and the
-invariant holds again with the remaining slack `n`. -/
-theorem rx_never_crashes2_partial (U : List Nat) (n : Nat) (e : Ep) (d cookie : Bytes) (now : Int)
-    (h : Inv2s U (n + V2.dgramDataBytes d) e) (hd : IsBytes d) (hc : cookie.length ≤ 1000) :
-    (∀ k, Out.crash k ∉ (step e now (.rx d cookie)).2) ∧ Inv2s U n (step e now (.rx d cookie)).1 := by
+/-- NO byte string makes the receive path raise or hang — in any association state, with channels still waiting for
+their stream id (also when the peer occupies every id of the local parity), with partially reliable messages queued,
+abandoned or in flight — and the invariant holds again. -/
+theorem rx_never_crashes2_proved : rx_never_crashes2 := by
+  intro U e d cookie now h hd hc
   obtain ⟨hw, ha, hs⟩ := h
-  refine step_ok (P := Inv2s U n) ?_
+  refine step_ok (P := Inv2 U) ?_
   show wp NoExc (handleData d cookie) _ _
   refine V2.wp_handleData (wf_now hw now) ha hs hd hc ?_
   intro e' l' hw' ha' hs'
   exact ⟨hw', ha', hs'⟩
 
-/-- The same, hypotheses spelled out as "invariant + capacity". -/
-theorem rx_never_crashes2_cap (U : List Nat) (e : Ep) (d cookie : Bytes) (now : Int)
-    (h : Inv2 U e) (hcap : Cap e (V2.dgramDataBytes d)) (hd : IsBytes d) (hc : cookie.length ≤ 1000) :
-    (∀ k, Out.crash k ∉ (step e now (.rx d cookie)).2) ∧ Inv2 U (step e now (.rx d cookie)).1 :=
-  rx_never_crashes2_partial U 0 e d cookie now ((inv2s_iff U _ e).mpr ⟨h, by simpa using hcap⟩) hd hc
-
 /-- `Out.crash "hang"` in particular. -/
 theorem rx_no_hang2 (U : List Nat) (e : Ep) (d cookie : Bytes) (now : Int)
-    (h : Inv2 U e) (hcap : Cap e (V2.dgramDataBytes d)) (hd : IsBytes d) (hc : cookie.length ≤ 1000) :
+    (h : Inv2 U e) (hd : IsBytes d) (hc : cookie.length ≤ 1000) :
     Out.crash "hang" ∉ (step e now (.rx d cookie)).2 :=
-  (rx_never_crashes2_cap U e d cookie now h hcap hd hc).1 _
+  (rx_never_crashes2_proved U e d cookie now h hd hc).1 _
 
 /-! ## timers and queued tasks (no side condition left: what they need is part of the invariant) -/
 
 /-- A timer that is armed (`asyncio` only calls back a handle that was started and not cancelled) neither raises nor
 breaks the invariant. -/
-theorem fire_preserves_inv2 (U : List Nat) (n : Nat) (e : Ep) (now : Int) (t : String) (h : Inv2s U n e)
+theorem fire_preserves_inv2 (U : List Nat) (e : Ep) (now : Int) (t : String) (h : Inv2 U e)
     (ht : t = "t1" ∧ e.t1 = true ∨ t = "t2" ∧ e.t2 = true ∨ t = "t3" ∨ t = "reconfig") :
-    (∀ k, Out.crash k ∉ (step e now (.fire t)).2) ∧ Inv2s U n (step e now (.fire t)).1 := by
+    (∀ k, Out.crash k ∉ (step e now (.fire t)).2) ∧ Inv2 U (step e now (.fire t)).1 := by
   obtain ⟨hw, ha, hs⟩ := h
   have hw0 := wf_now hw now
-  have post : ∀ (e' : Ep) (l' : List Out), V2.WF U n e' → e'.rwnd = e.rwnd → e'.inStreams = e.inStreams →
-      (fun (_ : Unit) (s' : St) => Inv2s U n s'.1) () (e', l') :=
+  have post : ∀ (e' : Ep) (l' : List Out), V2.WF U e' → e'.rwnd = e.rwnd → e'.inStreams = e.inStreams →
+      (fun (_ : Unit) (s' : St) => Inv2 U s'.1) () (e', l') :=
     fun e' l' hw' hr hi => ⟨hw', ha.frame hr hi, hs.frame hi⟩
-  refine step_ok (P := Inv2s U n) ?_
+  refine step_ok (P := Inv2 U) ?_
   rcases ht with ⟨rfl, hc⟩ | ⟨rfl, hc⟩ | rfl | rfl
   · exact V2.wp_fire_t1 hw0 hc post
   · exact V2.wp_fire_t2 hw0 hc post
   · exact V2.wp_fire_t3 hw0 post
   · exact V2.wp_fire_reconfig hw0 post
 
-theorem task_preserves_inv2 (U : List Nat) (n : Nat) (e : Ep) (now : Int) (h : Inv2s U n e) :
-    (∀ k, Out.crash k ∉ (step e now .task).2) ∧ Inv2s U n (step e now .task).1 := by
+theorem task_preserves_inv2 (U : List Nat) (e : Ep) (now : Int) (h : Inv2 U e) :
+    (∀ k, Out.crash k ∉ (step e now .task).2) ∧ Inv2 U (step e now .task).1 := by
   obtain ⟨hw, ha, hs⟩ := h
-  refine step_ok (P := Inv2s U n) ?_
+  refine step_ok (P := Inv2 U) ?_
   show wp NoExc runTask _ _
   refine V2.wp_runTask (wf_now hw now) ?_
   intro e' l' hw' hr hi
@@ -147,27 +117,26 @@ theorem task_preserves_inv2 (U : List Nat) (n : Nat) (e : Ep) (now : Int) (h : I
 
 /-! ## application inputs (after `start()`) -/
 
-/-- `createDataChannel` with parameters the API can encode (`CreateOk`); costs 12 bytes of slack. -/
-theorem create_preserves_inv2 (U : List Nat) (n : Nat) (e : Ep) (now : Int) (p : CreateParams)
-    (h : Inv2s U (n + 12) e) (hp : V2.CreateOk p) :
-    (∀ k, Out.crash k ∉ (step e now (.create p)).2) ∧ Inv2s U n (step e now (.create p)).1 := by
+/-- `createDataChannel` with parameters the API can encode (`CreateOk`). -/
+theorem create_preserves_inv2 (U : List Nat) (e : Ep) (now : Int) (p : CreateParams)
+    (h : Inv2 U e) (hp : V2.CreateOk p) :
+    (∀ k, Out.crash k ∉ (step e now (.create p)).2) ∧ Inv2 U (step e now (.create p)).1 := by
   obtain ⟨hw, ha, hs⟩ := h
-  have hrw : e.rwnd ≤ 1048576 := by have := ha.acc; omega
-  refine step_ok (P := Inv2s U n) ?_
+  refine step_ok (P := Inv2 U) ?_
   show wp NoExc (createChannel p) _ _
   refine V2.wp_create hp ?_
   intro e' l' hc
   rcases hc with rfl | ⟨c, hc⟩
-  · exact ⟨(wf_now hw now).mono (by omega), ha, hs⟩
-  · have hw' := (wf_now hw now).created hrw hc
+  · exact ⟨wf_now hw now, ha, hs⟩
+  · have hw' := (wf_now hw now).created hc
     cases hc <;> exact ⟨hw', ha, hs⟩
 
 /-- `channel.send` on an existing channel that is reliable or whose stream is in `U` (`SendOk`). -/
-theorem send_preserves_inv2 (U : List Nat) (n : Nat) (e : Ep) (now : Int) (i : Nat) (isStr : Bool) (data : Bytes)
-    (h : Inv2s U n e) (hi : i < e.chans.length) (hs' : V2.SendOk U e i) :
-    (∀ k, Out.crash k ∉ (step e now (.send i isStr data)).2) ∧ Inv2s U n (step e now (.send i isStr data)).1 := by
+theorem send_preserves_inv2 (U : List Nat) (e : Ep) (now : Int) (i : Nat) (isStr : Bool) (data : Bytes)
+    (h : Inv2 U e) (hi : i < e.chans.length) (hs' : V2.SendOk U e i) :
+    (∀ k, Out.crash k ∉ (step e now (.send i isStr data)).2) ∧ Inv2 U (step e now (.send i isStr data)).1 := by
   obtain ⟨hw, ha, hs⟩ := h
-  refine step_ok (P := Inv2s U n) ?_
+  refine step_ok (P := Inv2 U) ?_
   refine V2.wp_send (wf_now hw now) hi hs' ?_
   intro e' l' hw' hr hin
   exact ⟨hw', ha.frame hr hin, hs.frame hin⟩
@@ -175,51 +144,51 @@ theorem send_preserves_inv2 (U : List Nat) (n : Nat) (e : Ep) (now : Int) (i : N
 /-- `channel.close()` on an existing channel while the association is ESTABLISHED (the stream reset is queued).
 In the other association states `_data_channels.pop(channel.id)` raises `KeyError` if the id is not registered any
 more, and `Inv2` does not track which channel objects are registered: see `close_only_keyerror`. -/
-theorem close_preserves_inv2_partial (U : List Nat) (n : Nat) (e : Ep) (now : Int) (i : Nat)
-    (h : Inv2s U n e) (hi : i < e.chans.length) (hk : e.assoc = .established) :
-    (∀ k, Out.crash k ∉ (step e now (.close i)).2) ∧ Inv2s U n (step e now (.close i)).1 := by
+theorem close_preserves_inv2_partial (U : List Nat) (e : Ep) (now : Int) (i : Nat)
+    (h : Inv2 U e) (hi : i < e.chans.length) (hk : e.assoc = .established) :
+    (∀ k, Out.crash k ∉ (step e now (.close i)).2) ∧ Inv2 U (step e now (.close i)).1 := by
   obtain ⟨hw, ha, hs⟩ := h
-  refine step_ok (P := Inv2s U n) ?_
+  refine step_ok (P := Inv2 U) ?_
   refine V2.wp_close (wf_now hw now) hi (Or.inr hk) ?_
   intro e' l' hw' hr hin
   exact ⟨hw', ha.frame hr hin, hs.frame hin⟩
 
 /-- `close()` in any association state: the only exception that can escape is that `KeyError`. -/
-theorem close_only_keyerror (U : List Nat) (n : Nat) (e : Ep) (now : Int) (i : Nat)
-    (h : Inv2s U n e) (hi : i < e.chans.length) :
+theorem close_only_keyerror (U : List Nat) (e : Ep) (now : Int) (i : Nat)
+    (h : Inv2 U e) (hi : i < e.chans.length) :
     (∀ k, Out.crash k ∈ (step e now (.close i)).2 → k = "KeyError") ∧
-    ((∀ k, Out.crash k ∉ (step e now (.close i)).2) → Inv2s U n (step e now (.close i)).1) := by
+    ((∀ k, Out.crash k ∉ (step e now (.close i)).2) → Inv2 U (step e now (.close i)).1) := by
   obtain ⟨hw, ha, hs⟩ := h
-  refine step_of_wp (A := fun k => k = "KeyError") (P := Inv2s U n) ?_
+  refine step_of_wp (A := fun k => k = "KeyError") (P := Inv2 U) ?_
   refine V2.wp_close (wf_now hw now) hi (Or.inl rfl) ?_
   intro e' l' hw' hr hin
   exact ⟨hw', ha.frame hr hin, hs.frame hin⟩
 
-theorem threshold_preserves_inv2 (U : List Nat) (n : Nat) (e : Ep) (now : Int) (i : Nat) (v : Int)
-    (h : Inv2s U n e) (hi : i < e.chans.length) :
-    (∀ k, Out.crash k ∉ (step e now (.threshold i v)).2) ∧ Inv2s U n (step e now (.threshold i v)).1 := by
+theorem threshold_preserves_inv2 (U : List Nat) (e : Ep) (now : Int) (i : Nat) (v : Int)
+    (h : Inv2 U e) (hi : i < e.chans.length) :
+    (∀ k, Out.crash k ∉ (step e now (.threshold i v)).2) ∧ Inv2 U (step e now (.threshold i v)).1 := by
   obtain ⟨hw, ha, hs⟩ := h
-  refine step_ok (P := Inv2s U n) ?_
+  refine step_ok (P := Inv2 U) ?_
   refine V2.wp_threshold (wf_now hw now) hi ?_
   intro e' l' hw' hr hin
   exact ⟨hw', ha.frame hr hin, hs.frame hin⟩
 
-theorem stop_preserves_inv2 (U : List Nat) (n : Nat) (e : Ep) (now : Int) (h : Inv2s U n e) :
-    (∀ k, Out.crash k ∉ (step e now .stop).2) ∧ Inv2s U n (step e now .stop).1 := by
+theorem stop_preserves_inv2 (U : List Nat) (e : Ep) (now : Int) (h : Inv2 U e) :
+    (∀ k, Out.crash k ∉ (step e now .stop).2) ∧ Inv2 U (step e now .stop).1 := by
   obtain ⟨hw, ha, hs⟩ := h
-  refine step_ok (P := Inv2s U n) ?_
+  refine step_ok (P := Inv2 U) ?_
   refine V2.wp_stop (wf_now hw now) ?_
   intro e' l' hw' hr hin
   exact ⟨hw', ha.frame hr hin, hs.frame hin⟩
 
 /-! ## before `start()`, and `start()` -/
 
-theorem pre_now {U n} {e : Ep} (h : V2.Pre U n e) (now : Int) : V2.Pre U n { e with now := now } :=
+theorem pre_now {U} {e : Ep} (h : V2.Pre U e) (now : Int) : V2.Pre U { e with now := now } :=
   ⟨h.ns, h.cl, h.t1, h.tk, wf_now h.wf now, h.acc, h.so⟩
 
-/-- A fresh endpoint (32-bit tag and initial TSN) satisfies the pre-start invariant with the whole slack. -/
+/-- A fresh endpoint (32-bit tag and initial TSN) satisfies the pre-start invariant. -/
 theorem pre_init (U : List Nat) (hU : U.length ≤ 16381) (isServer : Bool) (tag tsn : Nat) (ht : tag < 4294967296)
-    (hs : tsn < 4294967296) : V2.Pre U 393216 (Ep.init isServer tag tsn) := by
+    (hs : tsn < 4294967296) : V2.Pre U (Ep.init isServer tag tsn) := by
   refine ⟨rfl, rfl, rfl, by simp [Ep.init], ?_, ⟨by simp [Ep.init, reasmBytes], by simp [Ep.init]⟩,
     by intro p hp; simp [Ep.init] at hp⟩
   refine ⟨⟨by simp [Ep.init, V2.startF], ⟨0, rfl, by decide⟩, by simp [Ep.init, V2.startF], ht,
@@ -231,7 +200,6 @@ theorem pre_init (U : List Nat) (hU : U.length ≤ 16381) (isServer : Bool) (tag
      by simp [Ep.init, V2.startF, V2.LastE, wire], ⟨by simp [Ep.init, V2.startF], by simp [Ep.init, V2.startF]⟩,
      by simp [Ep.init, V2.startF], by simp [Ep.init, V2.startF], by simp [Ep.init, V2.startF], ?_⟩,
     ⟨by simp [Ep.init, V2.startF]⟩, ?_, ?_, by simp [Ep.init, V2.startF],
-    ⟨by simp [Ep.init, V2.startF, V2.pendingCh], by simp [Ep.init, V2.startF, V2.pendingCh]⟩,
     ⟨_, rfl, by split <;> omega⟩, hU, by simp [Ep.init, V2.startF], by simp [Ep.init, V2.startF],
     by simp [Ep.init, V2.startF], by simp [Ep.init, V2.startF]⟩
   · simp only [Ep.init, V2.startF]; omega
@@ -239,46 +207,38 @@ theorem pre_init (U : List Nat) (hU : U.length ≤ 16381) (isServer : Bool) (tag
   · simp only [Ep.init, V2.startF, InRange32]; omega
 
 /-- `createDataChannel` before `start()` (what `RTCPeerConnection.createDataChannel` does first). -/
-theorem create_preserves_pre (U : List Nat) (n : Nat) (e : Ep) (now : Int) (p : CreateParams)
-    (h : V2.Pre U (n + 12) e) (hp : V2.CreateOk p) :
-    (∀ k, Out.crash k ∉ (step e now (.create p)).2) ∧ V2.Pre U n (step e now (.create p)).1 := by
-  refine step_ok (P := V2.Pre U n) ?_
+theorem create_preserves_pre (U : List Nat) (e : Ep) (now : Int) (p : CreateParams)
+    (h : V2.Pre U e) (hp : V2.CreateOk p) :
+    (∀ k, Out.crash k ∉ (step e now (.create p)).2) ∧ V2.Pre U (step e now (.create p)).1 := by
+  refine step_ok (P := V2.Pre U) ?_
   show wp NoExc (createChannel p) _ _
   refine V2.wp_create hp ?_
   intro e' l' hc
   rcases hc with rfl | ⟨c, hc⟩
-  · exact (pre_now h now).mono (by omega)
+  · exact pre_now h now
   · exact (pre_now h now).created hc
 
 /-- The `_data_channel_flush` task queued by it does nothing before the association is established. -/
-theorem task_preserves_pre (U : List Nat) (n : Nat) (e : Ep) (now : Int) (h : V2.Pre U n e) :
-    (∀ k, Out.crash k ∉ (step e now .task).2) ∧ V2.Pre U n (step e now .task).1 := by
-  refine step_ok (P := V2.Pre U n) ?_
+theorem task_preserves_pre (U : List Nat) (e : Ep) (now : Int) (h : V2.Pre U e) :
+    (∀ k, Out.crash k ∉ (step e now .task).2) ∧ V2.Pre U (step e now .task).1 := by
+  refine step_ok (P := V2.Pre U) ?_
   show wp NoExc runTask _ _
   exact V2.wp_runTask_pre (pre_now h now) (fun e' l' h' => h')
 
 /-- `start()` with a 16-bit remote port establishes the invariant (the client sends its INIT without raising). -/
-theorem start_establishes_inv2 (U : List Nat) (n : Nat) (e : Ep) (now : Int) (rp : Nat) (h : V2.Pre U n e)
+theorem start_establishes_inv2 (U : List Nat) (e : Ep) (now : Int) (rp : Nat) (h : V2.Pre U e)
     (hr : rp < 65536) :
-    (∀ k, Out.crash k ∉ (step e now (.start rp)).2) ∧ Inv2s U n (step e now (.start rp)).1 := by
-  refine step_ok (P := Inv2s U n) ?_
+    (∀ k, Out.crash k ∉ (step e now (.start rp)).2) ∧ Inv2 U (step e now (.start rp)).1 := by
+  refine step_ok (P := Inv2 U) ?_
   refine V2.wp_start (pre_now h now) hr ?_
   intro e' l' hw' hr' hin
   exact ⟨hw', h.acc.frame hr' hin, h.so.frame hin⟩
 
 /-! ## arbitrary input sequences from `Ep.init` -/
 
-theorem pre_iff (U : List Nat) (n : Nat) (e : Ep) : V2.Pre U n e ↔ V2.Pre U 0 e ∧ Cap e n := by
-  constructor
-  · intro h
-    exact ⟨h.mono (Nat.zero_le _), h.wf.room.room⟩
-  · rintro ⟨h, hc⟩
-    have hw := h.wf
-    exact ⟨h.ns, h.cl, h.t1, h.tk, ⟨hw.net, hw.ch, hw.tx, hw.rx, hw.rcReq, hw.rcResp, hw.sack, ⟨hw.room.cap, hc⟩,
-      hw.ids, hw.cap, hw.tm1, hw.tm2, hw.tasks, hw.rcr⟩, h.acc, h.so⟩
-
 /-- States reachable before `start()`: a fresh endpoint, `createDataChannel` calls and the tasks they queue.
-`C e k` is the capacity assumed where `k` bytes of slack are consumed (`Cap` for the theorem, `True` for the goal). -/
+(`C e k` was the stream id capacity assumed where `k` bytes of slack were consumed; nothing depends on it any more,
+the goal instantiates it with `True`.) -/
 inductive Before (C : Ep → Nat → Prop) (U : List Nat) : Ep → Prop
   | init (isServer : Bool) (tag tsn : Nat) : tag < 4294967296 → tsn < 4294967296 →
       Before C U (Ep.init isServer tag tsn)
@@ -308,40 +268,39 @@ inductive Reach (C : Ep → Nat → Prop) (U : List Nat) : Ep → Prop
       Reach C U (step e now (.threshold i v)).1
   | stop {e : Ep} (now : Int) : Reach C U e → Reach C U (step e now .stop).1
 
-theorem before_pre (U : List Nat) (hU : U.length ≤ 16381) {e : Ep} (h : Before Cap U e) : V2.Pre U 0 e := by
+theorem before_pre (C : Ep → Nat → Prop) (U : List Nat) (hU : U.length ≤ 16381) {e : Ep} (h : Before C U e) :
+    V2.Pre U e := by
   induction h with
-  | init isServer tag tsn ht hs => exact (pre_init U hU isServer tag tsn ht hs).mono (Nat.zero_le _)
-  | create now p _ hp hc ih =>
-    exact (create_preserves_pre U 0 _ now p ((pre_iff U _ _).mpr ⟨ih, by simpa using hc⟩) hp).2
-  | task now _ ih => exact (task_preserves_pre U 0 _ now ih).2
+  | init isServer tag tsn ht hs => exact pre_init U hU isServer tag tsn ht hs
+  | create now p _ hp _ ih => exact (create_preserves_pre U _ now p ih hp).2
+  | task now _ ih => exact (task_preserves_pre U _ now ih).2
 
 /-- The invariant holds in every reachable state. -/
-theorem reach_inv2 (U : List Nat) (hU : U.length ≤ 16381) {e : Ep} (h : Reach Cap U e) : Inv2 U e := by
+theorem reach_inv2 (C : Ep → Nat → Prop) (U : List Nat) (hU : U.length ≤ 16381) {e : Ep} (h : Reach C U e) :
+    Inv2 U e := by
   induction h with
-  | start now rp hb hr => exact (start_establishes_inv2 U 0 _ now rp (before_pre U hU hb) hr).2
-  | rx now d cookie _ hd hc hcap ih => exact (rx_never_crashes2_cap U _ d cookie now ih hcap hd hc).2
-  | fire now t _ ht ih => exact (fire_preserves_inv2 U 0 _ now t ih ht).2
-  | task now _ ih => exact (task_preserves_inv2 U 0 _ now ih).2
-  | create now p _ hp hc ih =>
-    exact (create_preserves_inv2 U 0 _ now p ((inv2s_iff U _ _).mpr ⟨ih, by simpa using hc⟩) hp).2
-  | send now i isStr data _ hi hs ih => exact (send_preserves_inv2 U 0 _ now i isStr data ih hi hs).2
-  | close now i _ hi hk ih => exact (close_preserves_inv2_partial U 0 _ now i ih hi hk).2
-  | threshold now i v _ hi ih => exact (threshold_preserves_inv2 U 0 _ now i v ih hi).2
-  | stop now _ ih => exact (stop_preserves_inv2 U 0 _ now ih).2
+  | start now rp hb hr => exact (start_establishes_inv2 U _ now rp (before_pre C U hU hb) hr).2
+  | rx now d cookie _ hd hc _ ih => exact (rx_never_crashes2_proved U _ d cookie now ih hd hc).2
+  | fire now t _ ht ih => exact (fire_preserves_inv2 U _ now t ih ht).2
+  | task now _ ih => exact (task_preserves_inv2 U _ now ih).2
+  | create now p _ hp _ ih => exact (create_preserves_inv2 U _ now p ih hp).2
+  | send now i isStr data _ hi hs ih => exact (send_preserves_inv2 U _ now i isStr data ih hi hs).2
+  | close now i _ hi hk ih => exact (close_preserves_inv2_partial U _ now i ih hi hk).2
+  | threshold now i v _ hi ih => exact (threshold_preserves_inv2 U _ now i v ih hi).2
+  | stop now _ ih => exact (stop_preserves_inv2 U _ now ih).2
 
-/-- The goal: no state reachable from `Ep.init` can be crashed by a datagram — without capacity assumptions. -/
+/-- The goal: no state reachable from `Ep.init` can be crashed by a datagram — without capacity assumptions on the
+stream ids. -/
 def reachable_rx_never_crashes : Prop :=
   ∀ (U : List Nat), U.length ≤ 16381 → ∀ (e : Ep), Reach (fun _ _ => True) U e →
     ∀ (d cookie : Bytes) (now : Int), IsBytes d → cookie.length ≤ 1000 →
       ∀ k, Out.crash k ∉ (step e now (.rx d cookie)).2
 
-/-- What holds: along every run in which the stream id capacity `Cap` is available whenever it is consumed (by a
-datagram: its DATA payload; by `createDataChannel`: 12), no input raises inside the transport, and no datagram for
-which the capacity is available can crash or hang the receive path of the state reached. -/
-theorem reachable_rx_never_crashes_partial (U : List Nat) (hU : U.length ≤ 16381) (e : Ep) (h : Reach Cap U e)
-    (d cookie : Bytes) (now : Int) (hd : IsBytes d) (hc : cookie.length ≤ 1000) (hcap : Cap e (V2.dgramDataBytes d)) :
-    ∀ k, Out.crash k ∉ (step e now (.rx d cookie)).2 :=
-  (rx_never_crashes2_cap U e d cookie now (reach_inv2 U hU h) hcap hd hc).1
+/-- Along every run (inputs under the API preconditions of `Reach`) no input raises inside the transport, and no
+byte string can crash or hang the receive path of the state reached. -/
+theorem reachable_rx_never_crashes_proved : reachable_rx_never_crashes :=
+  fun U hU e h d cookie now hd hc =>
+    (rx_never_crashes2_proved U e d cookie now (reach_inv2 _ U hU h) hd hc).1
 
 /-! ## constants, and the hypotheses are satisfiable -/
 
@@ -351,9 +310,9 @@ theorem forward_tsn_capacity (streams : List (Nat × Nat)) (h : pairsInRange str
   simp only [Chunk.inRange, h, Bool.and_true, Bool.and_eq_true, decide_eq_true_eq]
   omega
 
-/-- A started client with a pending channel created before `start()` is reachable, satisfies the invariant, and has
-capacity for a full-size datagram. -/
-example : ∃ e, Reach Cap [1, 3] e ∧ Inv2 [1, 3] e ∧ Cap e 1200 ∧ V2.pendingCh e.chans = 1 := by
+/-- A started client with a channel created before `start()` (still waiting for its stream id, partially reliable)
+is reachable and satisfies the invariant. -/
+example : ∃ e, Reach (fun _ _ => True) [1, 3] e ∧ Inv2 [1, 3] e ∧ (e.chans.map (·.id)) = [none] := by
   let p : CreateParams := { label := [99], protocol := [], ordered := true, maxRetransmits := some 0,
                             maxPacketLifeTime := none, negotiated := false, id := none }
   have hp : V2.CreateOk p := by
@@ -361,9 +320,9 @@ example : ∃ e, Reach Cap [1, 3] e ∧ Inv2 [1, 3] e ∧ Cap e 1200 ∧ V2.pend
     · intro r hr; cases hr; decide
     · intro r hr; cases hr
     · intro v hv; cases hv
-  have hb0 : Before Cap [1, 3] (Ep.init false 222 5000) := .init false 222 5000 (by decide) (by decide)
-  have hb1 := Before.create (C := Cap) (U := [1, 3]) 1024000 p hb0 hp (by decide)
-  have hr := Reach.start (C := Cap) (U := [1, 3]) 1024000 5000 hb1 (by decide)
-  exact ⟨_, hr, reach_inv2 [1, 3] (by decide) hr, by decide +kernel, by decide +kernel⟩
+  have hb0 : Before (fun _ _ => True) [1, 3] (Ep.init false 222 5000) := .init false 222 5000 (by decide) (by decide)
+  have hb1 := Before.create (C := fun _ _ => True) (U := [1, 3]) 1024000 p hb0 hp trivial
+  have hr := Reach.start (C := fun _ _ => True) (U := [1, 3]) 1024000 5000 hb1 (by decide)
+  exact ⟨_, hr, reach_inv2 _ [1, 3] (by decide) hr, by decide +kernel⟩
 
 end Aiortc.Props.C05Sctp2
